@@ -67,6 +67,12 @@ func c16(r *Report) propMeta {
 	r.ArgHas("existing-lock-looked-up", sl, "Keeper.GetLock", 1, 1, "^param:stakerAddr")
 	r.RetHas("delegation-power", rK+"GetDelegationPower", 0, "call:StakingKeeper.GetDelegatorBonded", "param:stakerAddr")
 	r.Exists("total-power-sum", rK+"GetTotalPower", RetValEff(0, "^call:Int.Add", "call:Keeper.GetStakedPower", "call:Keeper.GetDelegationPower"), 1)
+	// staked power counts only coins of the denoms governance currently allows (a delisted denom carries no power: seed C16-3)
+	gsp := rK + "GetStakedPower"
+	r.ArgHas("staked-power-per-allowed-denom", gsp, "Coins.AmountOf", 0, 1, "field:Params.AllowedDenoms", "call:Keeper.GetParams")
+	r.ArgHas("staked-power-of-the-stakers-record", gsp, "Coins.AmountOf", -1, 1, "field:Stake.Coins", "call:Keeper.GetStake", "param:stakerAddr")
+	r.RetHas("staked-power-is-that-sum", gsp, 0, "call:Int.Add", "call:Coins.AmountOf", "!field:Coin.Amount")
+	r.LoopVisitsAll("staked-power-every-allowed-denom", gsp, "Coins.AmountOf", LoopOpts{})
 
 	r.Rule("C16.R5", "pairing: lock record and by-power index")
 	r.Dominated("delete-old-before-write", rK+"SetLock", CallEff("Keeper.DeleteLock"), CallEff("Keeper.setLockByPower"))
